@@ -32,7 +32,8 @@ RULE = ("seeded swarm over Policy/AsyncPolicy x call/execute x with/without retr
         "plus injected abort / KeyboardInterrupt / SystemExit / task cancellation; sequences and concurrent calls sharing "
         "the spy; distinct by trace shape; non-trivial = >=1 failed attempt or fault")
 COMPONENTS = dict(common.REAL_COMPONENTS, stub=common.REAL_COMPONENTS["stub"] + ["circuit breaker (pure spy: always admits, records calls)"])
-ASSUMPTIONS = ["terminations outside the statement (raising callbacks, GeneratorExit, nested policy errors) are C08's domain and not generated",
+ASSUMPTIONS = ["calls in which a user callback (attempt hook, classifier, strategy) raises are only held to R1 (exactly one record)",
+               "GeneratorExit and nested policy errors are C08's domain and not generated",
                "sampling, not proof"]
 BUDGETS = {"quick": (20000, 40), "thorough": (1200000, 280)}
 
@@ -59,6 +60,13 @@ def gen(seed, tier="quick"):
             c.setdefault("faults", []).append({"site": "sleeper", "at": r.randrange(0, 2), "exc": r.choice(["KeyboardInterrupt", "SystemExit"]), "kind": "base_exc"})
         elif y < 0.42 and scn["mode"] == "async":
             c.setdefault("faults", []).append({"site": "cancel", "at": r.randrange(0, 5), "frac": r.choice([0, 50])})
+        elif y < 0.52:
+            # misbehaving user callback: only "exactly one record" (R1) is demanded of such calls
+            site = r.choice(["attempt_end", "attempt_end", "attempt_start", "classifier", "strategy"])
+            c.setdefault("faults", []).append({"site": site, "at": r.choice(["always", 0, 1]), "exc": r.choice(["RuntimeError", "ValueError", "AbortRetryError"]),
+                                               "kind": "callback_raise"})
+            if site.startswith("attempt") and scn["place"].get("att_hooks", "none") == "none":
+                scn["place"]["att_hooks"] = r.choice(["call", "policy", "both"])
     if scn["mode"] == "async" and len(scn["calls"]) > 1 and r.random() < 0.5:
         scn["concurrent"] = True
         for c in scn["calls"]:
@@ -102,11 +110,14 @@ def oracle(scn, trace):
             exp = ("record_failure", K)
             why = "retries stopped"
         tag = f"{ent} end={why}"
+        callback_fault = any(e["ev"] == "FAULT" and e["site"] in ("attempt_end", "attempt_start", "classifier", "strategy") for e in cf.events)
         if len(recs) != 1:
             out.append(V("R1", f"{len(recs)} breaker records for one admitted call",
                          {"entry": ent, "call": cid, "ending": why, "records": [(r["m"], r.get("cls")) for r in recs], "end": end}))
             continue
         r0 = recs[0]
+        if callback_fault:
+            continue  # which record is right after a raising user callback is not stated; exactly-once is
         if r0["m"] != exp[0] or (exp[0] == "record_failure" and exp[1] is not None and r0.get("cls") != exp[1]):
             out.append(V("R2", f"recorded {r0['m']}{'(' + r0['cls'] + ')' if r0.get('cls') else ''}, expected {exp[0]}{'(' + exp[1] + ')' if exp[1] else ''}",
                          {"entry": ent, "call": cid, "ending": why, "history": [(a.kind, a.fclass) for a in cf.attempts]}))
